@@ -351,6 +351,10 @@ def run(ctx):
     # ---- R03.10 PER length determinants of the MCS envelopes (rule R18.3 of C18, same facts): a 128-byte Client Info must not be announced as 0x80 --
     import c18
     ctx.include(c18.run, ('R18.3', 'R18.7'), 'R03.10')
+    # ---- R03.12 every demand-active is answered: after a deactivate-all the automaton is back in the state that answers one (reset rule R12.5
+    # of C12, same facts); a reset that is missing or unreachable leaves the second demand-active of a session without confirm-active/finalization
+    import c12
+    ctx.include(c12.run, ('R12.5',), 'R03.12')
     # ---- R03.11 the MCS connect response is decoded under BER (T.125 is BER: servers use non-minimal length forms): read_connect_response (or
     # connect, if it was merged into it) hands the payload to asn1::from_ber
     import inline as _inl
